@@ -151,6 +151,25 @@ def scenario(params, ch):
             w.cb_raise["m0"] = False
         if "cbraiseall" in opts:
             w.cb_raise["m0"] = "always"
+        if "cbsend" in opts or "cbsendF" in opts:
+            # the application sends from INSIDE its callbacks: m0's callback queues r1 (guaranteed; fragmented with
+            # cbsendF), r1's callback queues r2 (unretried) - they are sends like any other
+            chain = [0]
+
+            def resend(success):
+                if chain[0] >= 2:
+                    return
+                chain[0] += 1
+                tag = "r%d" % chain[0]
+                rt = "retry" if chain[0] == 1 else "none"
+                size = SIZES["frag2"] if ("cbsendF" in opts and chain[0] == 1) else 33
+                data = payload(50 + chain[0], size)
+                mon.sends[tag] = (sender, data, rt, w.vt.now, "fragmented" if size > 1434 else "single")
+                w.cb_action[tag] = resend
+                e = app_send(w, mon, sender, data, rt, tag=tag)
+                if e is not None:
+                    ch.flag("send-raises", "send from inside a callback raised %s" % type(e).__name__, repr(e))
+            w.cb_action["m0"] = resend
         if "bidi" in opts:
             other = "s" if sender == "c" else "c"
             for j, (size, retry) in enumerate((("small", "retry"), ("small", "none"))):
@@ -298,6 +317,13 @@ def params_list(tier):
             for msgs in ((("small", "none"), ("small", "none")), (("small", "best"), ("small", "retry")), (("small", "none"), ("frag2", "retry")), (("small", "retry"), ("small", "none"))):
                 for b in (None, (data_dir0, 0, 70), ("both", 0, 100)):
                     if tier == "quick" and o == "cs|cbraiseall" and b is not None and b[0] != "both":
+                        continue
+                    out.append((direction, msgs, b, 0, o, 1))
+        # the application sends again from inside its callbacks (told True after an ack, told False after a timeout)
+        for o in ("cs|cbsend", "cs|cbsendF"):
+            for msgs in ((("small", "none"),), (("small", "retry"),), (("frag2", "none"),), (("small", "none"), ("small", "retry"))):
+                for b in (None, (data_dir0, 0, 70)):
+                    if tier == "quick" and o == "cs|cbsendF" and len(msgs) > 1:
                         continue
                     out.append((direction, msgs, b, 0, o, 1))
         # every counter a few numbers below the 16-bit wrap
